@@ -108,6 +108,18 @@ def hidden_state_findings(pkg, an):
                             om, _, on = owner.rpartition(".")
                             if om in pkg.modules and on in pkg.modules[om].assigns:
                                 out.append((mq, qn, e.line, "mutates module-level object " + owner))
+                        # a mutator called on an object REACHED FROM a module-level container (TABLE[key][1].update(...), an element of
+                        # a module-level dict of (class, kwargs) pairs): the shared object changes for every later caller
+                        if t[1][0] == "attr" and t[1][2] in MUTATORS:
+                            base = t[1][1]
+                            hops = 0
+                            while base[0] in ("sub", "elem") and hops < 6:
+                                base = base[1]
+                                hops += 1
+                            if hops and base[0] == "glob" and base[1].startswith(pkg.name + "."):
+                                om, _, on = base[1].rpartition(".")
+                                if om in pkg.modules and on in pkg.modules[om].assigns:
+                                    out.append((mq, qn, e.line, "mutates an object held in the module-level container %s (.%s())" % (base[1], t[1][2])))
                     if e.kind == "store" and e.data[0][0] == "glob":
                         out.append((mq, qn, e.line, "stores into module-level object " + e.data[0][1]))
                     if e.kind == "setattr" and e.data[0][0] == "glob":
@@ -136,7 +148,8 @@ def r2_hidden_state(ctx):
     fpkg = Package(VERIF / "fixtures" / "controls", name="controls")
     ffinds = hidden_state_findings(fpkg, Analysis(fpkg))
     kinds = {"global-state RNG call numpy.random.uniform", "global-state RNG call random.random", "global statement (COUNTER)",
-             "stores into module-level object controls.state._CACHE", "mutates module-level object controls.state.COUNTER"}
+             "stores into module-level object controls.state._CACHE", "mutates module-level object controls.state.COUNTER",
+             "mutates an object held in the module-level container controls.state._TABLE (.update())"}
     got = {w for _m, _q, _l, w in ffinds}
     ctx.check("R2", "fixtures/controls/state.py|positive-control", True if kinds <= got else None,
               "the scan reports all %d seeded hidden-state constructs of the control fixture" % len(kinds),
